@@ -240,6 +240,54 @@ def _worker_batch(args):
     return out
 
 
+def _summarise(i, plan, status, res, t0, keep_plan=False):
+    if status != "ok":
+        return {"run": i, "status": status, "detail": res, "plan": plan}
+    summ = {
+        "run": i, "status": "ok",
+        "digest": digest(res["events"]),
+        "nontrivial": bool(res.get("nontrivial")),
+        "steps": len(res["events"]),
+        "faults": res.get("faults", {}),
+        "probes": res.get("probes", {}),
+        "trans": res.get("trans", []),
+        "extra": res.get("extra", {}),
+        "violations": res.get("violations", []),
+        "wall": time.monotonic() - t0,
+    }
+    if summ["violations"] or keep_plan:
+        summ["plan"] = plan
+    return summ
+
+
+def _worker_plans(args):
+    """Execute explicit plans (used for enumerated families)."""
+    modname, items, run_timeout = args
+    import importlib
+    mod = importlib.import_module(modname)
+    import_prysm()
+    out = []
+    for i, plan in items:
+        t0 = time.monotonic()
+        status, res = run_in_child(mod.execute, plan, run_timeout)
+        out.append(_summarise(i, plan, status, res, t0))
+    return out
+
+
+def run_plans(modname, plans, first_index, workers=None, run_timeout=600.0):
+    from concurrent.futures import ProcessPoolExecutor
+    import multiprocessing as mp
+    workers = workers or int(os.environ.get("VERIF_WORKERS", "0")) or min(16, os.cpu_count() or 1)
+    items = [(first_index + j, p) for j, p in enumerate(plans)]
+    chunks = [items[k::workers] for k in range(workers) if items[k::workers]]
+    results = []
+    with ProcessPoolExecutor(max_workers=workers, mp_context=mp.get_context("fork")) as ex:
+        for res in ex.map(_worker_plans, [(modname, c, run_timeout) for c in chunks]):
+            results.extend(res)
+    results.sort(key=lambda r: r["run"])
+    return results
+
+
 def sweep(modname, seed, tier, n_runs, budget_s, workers=None, batch=16,
           run_timeout=60.0, on_batch=None, first=0):
     """Run up to n_runs simulated runs (indices first..first+n_runs-1) on a
